@@ -32,7 +32,7 @@ def _build(job):
     members, filters, password, mode_ops = job
     import py7zr
     buf = io.BytesIO()
-    kw = {"filters": filters}
+    kw = {"filters": filters} if filters is not None else {}
     if password is not None:
         kw["password"] = password
     if mode_ops and mode_ops[0] == "ctor":
@@ -112,6 +112,14 @@ def run(ctx):
         jobs.append((members, filters, pw, ops))
         jobs.append((members, filters, pw, ops))        # second build of the same input: IV / ciphertext must differ
         meta.append((lab + "+AES", pw, ops, members))
+    # default filters (filters=None): the library picks the encrypted default chain whenever a password is given
+    for pw in ("", "x", "pässwörd"):
+        names = ["confidential-d/%s.secret-name" % pw.encode().hex()]
+        members = [(names[0], PLAIN[0])]
+        for ops in ([], ["ctor"]):
+            jobs.append((members, None, pw, ops))
+            jobs.append((members, None, pw, ops))
+            meta.append(("default", pw, ops, members))
     built = sandbox.pmap(_build, jobs, timeout=120)
     reads, rmeta = [], []
     for i, (lab, pw, ops, members) in enumerate(meta):
@@ -132,7 +140,7 @@ def run(ctx):
         for nm, d in members:
             if windows(d) & _present(a1, windows(d)):
                 ctx.fail("C11:plaintext_leak", "member content appears in the archive bytes", dict(conf, member=nm))
-        base = [x for x in jobs[2 * i][1] if x["id"] != arclib.FILTER_CRYPTO_AES256_SHA256]
+        base = [x for x in (jobs[2 * i][1] or [{"id": arclib.FILTER_LZMA2, "preset": 7}]) if x["id"] != arclib.FILTER_CRYPTO_AES256_SHA256]
         if base:
             try:
                 plain_arc = arclib.write_archive(members, filters=base, header="raw")
@@ -154,6 +162,8 @@ def run(ctx):
             ctx.fail("C11:reference_reader", "the independent reader (own KDF) cannot decrypt: %s" % (r1.get("error") or r2.get("error")), conf)
         else:
             ivs1 = [c["props"] for f in r1["streams"]["folders"] for c in f["coders"] if c["method"] == "06f10701"]
+            if not ivs1:
+                ctx.fail("C11:not_encrypted", "a password was given but the archive has no 7zAES coder", conf)
             ivs2 = [c["props"] for f in r2["streams"]["folders"] for c in f["coders"] if c["method"] == "06f10701"]
             if set(ivs1) & set(ivs2):
                 ctx.fail("C11:iv_reuse", "two archives of the same input and password share an AES IV", dict(conf, props=list(set(ivs1) & set(ivs2))))
